@@ -293,6 +293,7 @@ def execute(plan):
     evals = events = 0
     h = hashlib.sha256()
     with World(plugins=plan.get("plugins") or None, bmc="D" if plan.get("bmc") and plan["mode"] == "json" else None) as w:
+        w.long_opts = bool(plan.get("long_opts"))
         if w.bmc:
             bump("environment:bmc")
         if plan.get("plugins"):
